@@ -12,6 +12,8 @@ pub struct DiffRef {
     pub allow_cond: bool,
     /// only patterns containing a conditional count as non-trivial (C15)
     pub cond_focus: bool,
+    /// spell conditionals with an empty no-branch without the `|` (documented: "empty if omitted")
+    pub omit_empty_no: bool,
 }
 
 pub struct DP {
@@ -89,6 +91,14 @@ impl PatProp for DiffRef {
             st.class(&format!("feature:{}", f));
         }
         Prep::Ready(DP { re, prog: refm::compile(n), vm, interesting_groups: groups_in_context(n, false), has_cond: n.has_cond() })
+    }
+
+    fn spell(&self, n: &Node) -> String {
+        n.to_pattern_with(&crate::ast::PrintOpts { cond_omit_empty_no: self.omit_empty_no, ..Default::default() })
+    }
+
+    fn extra(&self) -> serde_json::Value {
+        serde_json::json!({"omit_empty_no": self.omit_empty_no})
     }
 
     fn eval(&self, _ctx: &RunCtx, p: &DP, _n: &Node, t: &str, pos: usize) -> Verdict {
